@@ -153,7 +153,7 @@ fn span_json(tcx: TyCtxt<'_>, sp: Span) -> (J, J) {
 struct Cx<'tcx> {
     tcx: TyCtxt<'tcx>,
     env: TypingEnv<'tcx>,
-    owner: DefId,
+    mir: &'tcx Body<'tcx>,
 }
 
 impl<'tcx> Cx<'tcx> {
@@ -225,8 +225,8 @@ impl<'tcx> Cx<'tcx> {
         // which item does an unevaluated constant name?
         if let Const::Unevaluated(uv, _) = c {
             o.push(("item", s(path_of(self.tcx, uv.def))));
-            if uv.promoted.is_some() {
-                o.push(("promoted", J::Bool(true)));
+            if let Some(p) = uv.promoted {
+                o.push(("promoted", n(p.as_usize())));
             }
         }
         let is_scalarish = ty.is_integral()
@@ -399,7 +399,7 @@ impl<'tcx> Cx<'tcx> {
     }
 
     fn body(&self) -> &'tcx Body<'tcx> {
-        self.tcx.optimized_mir(self.owner)
+        self.mir
     }
 
     fn block(&self, bb: &BasicBlockData<'tcx>) -> J {
@@ -581,7 +581,7 @@ fn vis_str(tcx: TyCtxt<'_>, did: DefId) -> String {
 
 fn dump_body<'tcx>(tcx: TyCtxt<'tcx>, did: DefId) -> J {
     let body = tcx.optimized_mir(did);
-    let cx = Cx { tcx, env: TypingEnv::post_analysis(tcx, did), owner: did };
+    let cx = Cx { tcx, env: TypingEnv::post_analysis(tcx, did), mir: body };
     let kind = tcx.def_kind(did);
     let mut o: Vec<(&'static str, J)> = vec![];
     o.push(("path", s(path_of(tcx, did))));
@@ -635,6 +635,21 @@ fn dump_body<'tcx>(tcx: TyCtxt<'tcx>, did: DefId) -> J {
         blocks.push(cx.block(bb));
     }
     o.push(("blocks", J::Arr(blocks)));
+    // promoted constants (e.g. `&Type::Float(Some(64), IsConst::True)`)
+    let mut proms = vec![];
+    for pb in tcx.promoted_mir(did).iter() {
+        let pcx = Cx { tcx, env: TypingEnv::post_analysis(tcx, did), mir: pb };
+        let mut pl = vec![];
+        for d in pb.local_decls.iter() {
+            pl.push(J::Obj(vec![("ty", pcx.ty_json(d.ty)), ("name", J::Null)]));
+        }
+        let mut pbl = vec![];
+        for bb in pb.basic_blocks.iter() {
+            pbl.push(pcx.block(bb));
+        }
+        proms.push(J::Obj(vec![("locals", J::Arr(pl)), ("blocks", J::Arr(pbl))]));
+    }
+    o.push(("promoted", J::Arr(proms)));
     J::Obj(o)
 }
 
